@@ -73,6 +73,34 @@ def representations(ctx, n):
         ctx.fail_input('representation', site + ' raise ' + type(ex).__name__,
                        dict(kind=nm, L=L.tolist(), X=Xi.tolist(), idx=idx.tolist()), observed=str(ex)[:200])
         continue
+      # the function handed out by get_metric on vectors held in the same representation
+      if not nm.startswith('indices'):
+        f = est.get_metric()
+        src = np.asarray(Xa if nm in ('int8', 'uint8', 'uint32') else Xi)
+        for (i, j) in idx[:2]:
+          if nm == 'list':
+            u, v = src[i].astype(float).tolist(), src[j].astype(float).tolist()
+          elif nm == 'fortran':
+            u, v = np.asfortranarray(src.astype(float))[i], np.asfortranarray(src.astype(float))[j]
+          elif nm == 'noncontiguous':
+            u, v = np.repeat(src[i].astype(float), 2)[::2], np.repeat(src[j].astype(float), 2)[::2]
+          else:
+            u, v = src[i].astype(nm), src[j].astype(nm)
+          ctx.count('representation', 1)
+          try:
+            with warnings.catch_warnings():
+              warnings.simplefilter('ignore')
+              g, g2 = f(u, v), f(u, v, squared=True)
+              w, w2 = f(src[i].astype(float), src[j].astype(float)), f(src[i].astype(float), src[j].astype(float), squared=True)
+          except Exception as ex:
+            ctx.fail_input('representation', 'get_metric()(u, v) with ' + site + ' raise ' + type(ex).__name__,
+                           dict(kind=nm, L=L.tolist(), u=src[i].tolist(), v=src[j].tolist()), observed=str(ex)[:200])
+            break
+          if not (g == w and g2 == w2):
+            ctx.fail_input('representation', 'get_metric()(u, v) with ' + site + ' give different results',
+                           dict(kind=nm, L=L.tolist(), u=src[i].tolist(), v=src[j].tolist()),
+                           observed=[float(g), float(g2)], expected=[float(w), float(w2)])
+            break
       if not (np.array_equal(got_d, want_d) and np.array_equal(got_t, want_t)):
         ctx.fail_input('representation', site + ' give different results',
                        dict(kind=nm, L=L.tolist(), X=(Xa if nm in ('int8', 'uint8', 'uint32') else Xi).tolist(),
